@@ -9,11 +9,20 @@ configuration fields reach can_run_atomic_service).
 
 Fail-closed: every statement / expression form that is not recognised raises TranslateError (the caller
 then falls back to coq/gen_default and relies on the bit-exact correspondence).
+
+History-freedom: the generated functions take runner ids only - the execution history carried by ActiveRunnerInfo
+(last_service_start / last_service_end, written by record_atomic_service_execution) is NOT a parameter of the model.
+That is sound only while no value read from the history reaches the result of the three functions.  A separate,
+deliberately tolerant data-flow pass (history_flow) decides this on the source; its verdict is emitted as the fact
+`gen_history_free` (theorem authorisation_ignores_execution_history of Props/C12.v).  When the history DOES reach a
+result the history-free model does not apply: the fact is emitted as false over the committed default definitions
+(the proof of Props/C12.v then breaks) instead of silently degrading.
 """
 from __future__ import annotations
 
 import ast
 import hashlib
+import os
 
 SRC = "pynenc/orchestrator/atomic_service.py"
 ORCH = "pynenc/orchestrator/base_orchestrator.py"
@@ -451,6 +460,141 @@ def wiring(orch_src: str) -> dict[str, bool]:
     return facts
 
 
+# ------------------------------------------------------------------------------------------ history flow
+# what reads the execution history of an ActiveRunnerInfo
+HISTORY_ACCESSORS = frozenset({"last_service_start", "last_service_end", "get_last_execution_duration_seconds"})
+MODELLED = ("calculate_time_slot", "is_runner_in_time_slot", "can_run_atomic_service")
+
+
+def _mentions(node, names) -> bool:
+    for n in ast.walk(node):
+        if isinstance(n, ast.Name) and n.id in names:
+            return True
+        if isinstance(n, ast.Attribute) and n.attr in names:
+            return True
+    return False
+
+
+def history_readers(tree) -> set[str]:
+    """names of the functions / methods of the module that (transitively) read the execution history"""
+    H = set(HISTORY_ACCESSORS)
+    defs = [n for n in ast.walk(tree) if isinstance(n, (ast.FunctionDef, ast.AsyncFunctionDef))]
+    changed = True
+    while changed:
+        changed = False
+        for fn in defs:
+            if fn.name not in H and any(_mentions(st, H) for st in fn.body):
+                H.add(fn.name)
+                changed = True
+    return H
+
+
+def result_reads_history(fn: ast.FunctionDef, sources: set[str]) -> bool:
+    """Does a value read through `sources` reach what `fn` returns (data flow through assignments / walrus /
+    loop targets, control dependence of assignments, returns, raises and loop exits on a history-dependent test)?
+    Flow-insensitive over the names of the function: errs towards True only for names that are re-used."""
+    tainted: set[str] = set()
+    result = [False]
+
+    def et(e) -> bool:
+        return e is not None and (_mentions(e, sources) or _mentions(e, tainted))
+
+    def taint_target(t) -> bool:
+        grew = False
+        for n in ast.walk(t):
+            if isinstance(n, ast.Name) and n.id not in tainted:
+                tainted.add(n.id)
+                grew = True
+        return grew
+
+    def walrus(e, ctrl) -> bool:
+        grew = False
+        if e is None:
+            return False
+        for n in ast.walk(e):
+            if isinstance(n, ast.NamedExpr) and (ctrl or et(n.value)):
+                grew |= taint_target(n.target)
+        return grew
+
+    def block(stmts, ctrl) -> bool:
+        grew = False
+        for st in stmts:
+            for e in ast.iter_child_nodes(st):
+                if isinstance(e, ast.expr):
+                    grew |= walrus(e, ctrl)
+            if isinstance(st, ast.Assign):
+                if ctrl or et(st.value):
+                    for t in st.targets:
+                        grew |= taint_target(t)
+            elif isinstance(st, (ast.AnnAssign, ast.AugAssign)):
+                if st.value is not None and (ctrl or et(st.value)):
+                    grew |= taint_target(st.target)
+            elif isinstance(st, (ast.If, ast.While)):
+                c = ctrl or et(st.test)
+                grew |= block(st.body, c) | block(st.orelse, c)
+            elif isinstance(st, (ast.For, ast.AsyncFor)):
+                c = ctrl or et(st.iter)
+                if c:
+                    grew |= taint_target(st.target)
+                grew |= block(st.body, c) | block(st.orelse, c)
+            elif isinstance(st, (ast.With, ast.AsyncWith)):
+                for it in st.items:
+                    if it.optional_vars is not None and (ctrl or et(it.context_expr)):
+                        grew |= taint_target(it.optional_vars)
+                grew |= block(st.body, ctrl)
+            elif isinstance(st, ast.Try):
+                grew |= block(st.body, ctrl) | block(st.orelse, ctrl) | block(st.finalbody, ctrl)
+                for h in st.handlers:
+                    grew |= block(h.body, ctrl)
+            elif isinstance(st, ast.Return):
+                if ctrl or et(st.value):
+                    result[0] = True
+            elif isinstance(st, (ast.Raise, ast.Break, ast.Continue)):
+                if ctrl:
+                    result[0] = True
+            elif isinstance(st, (ast.FunctionDef, ast.AsyncFunctionDef, ast.ClassDef)):
+                if _mentions(st, sources):
+                    grew |= taint_target(ast.Name(id=st.name, ctx=ast.Store()))
+        return grew
+
+    while block(_strip_doc(fn.body), False):
+        pass
+    block(_strip_doc(fn.body), False)
+    return result[0]
+
+
+def history_flow(tree, fns) -> dict[str, bool]:
+    """{modelled function: its result is independent of the execution history}"""
+    readers = history_readers(tree)
+    base = set(readers) - set(MODELLED)
+    slot_reads = result_reads_history(fns["calculate_time_slot"], base)
+    in_reads = result_reads_history(fns["is_runner_in_time_slot"], base)
+    inner = base | ({"calculate_time_slot"} if slot_reads else set()) | ({"is_runner_in_time_slot"} if in_reads else set())
+    can_reads = result_reads_history(fns["can_run_atomic_service"], inner)
+    return {"calculate_time_slot": not slot_reads, "is_runner_in_time_slot": not in_reads,
+            "can_run_atomic_service": not can_reads}
+
+
+def _history_fact_text(free: dict[str, bool]) -> str:
+    b = lambda x: "true" if x else "false"   # noqa: E731
+    return ("(* no value read from the execution history (last_service_start / last_service_end) reaches the result of\n"
+            "   calculate_time_slot, is_runner_in_time_slot, can_run_atomic_service: the model takes runner ids only *)\n"
+            "Definition gen_history_free : list bool :=\n  ("
+            + " :: ".join(b(free[k]) for k in MODELLED) + " :: nil)%list.\n")
+
+
+def _default_with_history_fact(free: dict[str, bool]) -> str:
+    """the committed default definitions with the history fact of THIS source (used when the history reaches a result)"""
+    import re
+    path = os.path.join(os.path.dirname(os.path.dirname(os.path.dirname(os.path.abspath(__file__)))),
+                        "coq", "gen_default", "AtomicService_gen.v")
+    text = open(path).read()
+    pat = re.compile(r"\(\* no value read from the execution history.*?nil\)%list\.\n", re.S)
+    if not pat.search(text):
+        raise TranslateError("default file has no gen_history_free")
+    return pat.sub(lambda _m: _history_fact_text(free), text, count=1)
+
+
 # ------------------------------------------------------------------------------------------ driver
 def translate(repo: str) -> tuple[str, dict]:
     src = open(f"{repo}/{SRC}").read()
@@ -459,6 +603,12 @@ def translate(repo: str) -> tuple[str, dict]:
     for need in ("calculate_time_slot", "is_runner_in_time_slot", "can_run_atomic_service", "calculate_runner_position"):
         if need not in fns:
             raise TranslateError(f"{need} not found")
+    free = history_flow(tree, fns)
+    if not all(free.values()):
+        # the history-free model does not describe this source: say so in Coq (Props/C12.v stops building)
+        return _default_with_history_fact(free), {
+            "history_free": free, "history_reaches_result": True, "end_form": "unknown (history reaches the result)",
+            "wiring": {}, "shapes": {}, "shape_changed": []}
     slot_text, slot_info = tr_time_slot(fns["calculate_time_slot"])
     in_text = tr_in_slot(fns["is_runner_in_time_slot"])
     can_text = tr_can_run(fns["can_run_atomic_service"])
@@ -482,8 +632,10 @@ def translate(repo: str) -> tuple[str, dict]:
         "  (" + " :: ".join(b(facts[k]) for k in ("heartbeat_first_eligible", "list_is_eligible_runners", "id_is_callers",
                                                  "clock_is_time", "interval_from_conf", "margin_from_conf")) + " :: nil)%list.",
         "",
+        _history_fact_text(free),
     ])
-    info = {"end_form": slot_info["end_form"], "wiring": facts, "shapes": shapes,
+    info = {"end_form": slot_info["end_form"], "wiring": facts, "shapes": shapes, "history_free": free,
+            "history_reaches_result": False,
             "shape_changed": sorted(k for k, v in EXPECTED_SHAPES.items() if shapes.get(k) != v)}
     return text, info
 
